@@ -615,8 +615,16 @@ func rawStream(r *vh.Rng, n int, cv *vh.Cases, sum *vh.Summary, idBase int) {
 			}
 		}
 		pn, pok := codec.VerifParseUint64Simple(b)
-		cv.Add(fmt.Sprintf("CRaw %d %s %s %s %s %s %s", idBase+i, vh.CoqBytes(b), coqRf(codec.VerifReadFloat(b, 0)), coqRf(codec.VerifReadFloat(b, 1)),
-			coqRf(codec.VerifReadFloat(b, 2)), coqZu(pn), vh.CoqBool(pok)))
+		// the custom float parsers on the same bytes: a text readFloat calls bad is refused,
+		// everything else is the fast path's or strconv's answer
+		s64, se64 := strconv.ParseFloat(string(b), 64)
+		s32, se32 := strconv.ParseFloat(string(b), 32)
+		p64, pe64, _ := safeParse64(b)
+		p32, pe32, _ := safeParse32(b)
+		cv.Add(fmt.Sprintf("CRaw %d %s %s %s %s %s %s %s %s %s %s", idBase+i, vh.CoqBytes(b), coqRf(codec.VerifReadFloat(b, 0)), coqRf(codec.VerifReadFloat(b, 1)),
+			coqRf(codec.VerifReadFloat(b, 2)), coqZu(pn), vh.CoqBool(pok),
+			coqOptZ(se64 == nil, math.Float64bits(s64)), coqOptZ(se32 == nil, uint64(math.Float32bits(float32(s32)))),
+			coqOptZ(pe64 == nil, p64), coqOptZ(pe32 == nil, uint64(p32))))
 		sum.ModelCases++
 		key := "raw/" + string(b)
 		if len(b) < 2 {
@@ -1567,17 +1575,22 @@ func main() {
 	nStr := flag.Int("str", 900, "string literals")
 	nEnc := flag.Int("enc", 300, "encode-side strings (ints and floats: half each)")
 	nDoc := flag.Int("doc", 400, "documents")
+	nRefuse := flag.Int("refuse", 300, "number tokens outside the grammar that must stay refused")
+	nKeys := flag.Int("keys", 200, "maps with number-like string keys under MapKeyAsString")
 	cases := flag.String("cases", "/verif/build/c09/cases", "directory for the model case files")
 	flag.Parse()
 	r := vh.NewRng(vh.SeedFromEnv())
-	sum := vh.NewSummary("num: literals from the JSON number grammar (0-300 leading/trailing zeros, 1-40 significant digits, exponents +-400, boundary mantissas 2^53+-1 2^64+-1, subnormal/overflow boundaries) into float64/float32/interface{} via bytes and io vs strconv.ParseFloat; distinct by (class, fast/slow path, length/8, exp, flags). raw/fast: readFloat and the fast path on arbitrary input (model only). str: string literals over all escape shapes, every (hi|lo) x 6^3 neighbour arrangement, truncated/invalid escapes, followed by other bytes, vs encoding/json.Unmarshal and NumBytesRead; distinct by shape/length/outcome. enc: strings with invalid UTF-8/controls/HTML chars x HTMLCharsAsIs, ints x IntegerAsString, floats (format choice, round trip). doc: schema-less trees and reflect-built types x {HTMLCharsAsIs, Indent, IntegerAsString, MapKeyAsString, TermWhitespace, Canonical}: json.Valid, encoding/json round trip both ways. non-trivial = longer than 2-3 bytes")
+	sum := vh.NewSummary("num: literals from the JSON number grammar (0-300 leading/trailing zeros, 1-40 significant digits, exponents +-400, boundary mantissas 2^53+-1 2^64+-1, subnormal/overflow boundaries) into float64/float32/interface{} via bytes and io vs strconv.ParseFloat; distinct by (class, fast/slow path, length/8, exp, flags). raw/fast: readFloat and the fast path on arbitrary input (model only). str: string literals over all escape shapes, every (hi|lo) x 6^3 neighbour arrangement, truncated/invalid escapes, followed by other bytes, vs encoding/json.Unmarshal and NumBytesRead; distinct by shape/length/outcome. enc: strings with invalid UTF-8/controls/HTML chars x HTMLCharsAsIs, ints x IntegerAsString, floats (format choice, round trip). doc: schema-less trees and reflect-built types x {HTMLCharsAsIs, Indent, IntegerAsString, MapKeyAsString, TermWhitespace, Canonical}: json.Valid, encoding/json round trip both ways. refuse: number tokens outside the grammar that the decoder refuses today (leading zeros, leading +, second dot, sign inside the mantissa, malformed exponent, strconv-only spellings nan/inf/hex) x {bare, array, map value, float-keyed map key} x {float64, float32, interface{}} x {bytes, io}: must be refused. keys: map[interface{}]interface{} with number-like non-number string keys and real numbers under MapKeyAsString, codec->codec and encoding/json->codec; one model case per distinct key. non-trivial = longer than 2-3 bytes")
 	cv := vh.NewCases(*cases, coqHeader, "case", "mismatches", 60)
 	numStream(r.Fork(), *nNum, cv, sum, 0)
 	rawStream(r.Fork(), *nRaw, cv, sum, 1000000)
 	fastStream(r.Fork(), *nFast, cv, sum, 2000000)
 	strStream(r.Fork(), *nStr, cv, sum, 3000000)
 	encStream(r.Fork(), *nEnc, cv, sum, 4000000)
-	cv.Close()
+	rK, rR := r.Fork(), r.Fork()
 	docStream(r.Fork(), *nDoc, sum)
+	keyStream(rK, *nKeys, cv, sum, 5000000)
+	cv.Close()
+	refuseStream(rR, *nRefuse, sum)
 	sum.Print()
 }
